@@ -36,9 +36,8 @@ FAULTS = ["y-sign", "pm1-of-flipped", "num-args-swapped", "aliased-flip", "z-sig
           "div-n-minus-c"]
 INVARIANTS = ["TypeOK", "Unbiased", "LocalIsRow", "ZTypeReal", "ImaginaryAveragesOut", "PeriodicEitherWay",
               "OpsHermitian", "OpsPeriodicSymmetric", "OpsPlacement", "OpsPauli", "FaultsExposed",
-              "AlternativeNotExposed", "MC_Export"]
-EXPORT = ('MC_Export == /\\ (st = "ops" => PrintT(ToJson(OpsRecord(C.n))))\n'
-          '             /\\ (st = "faults" => PrintT(ToJson(FaultsRecord)))')
+              "MC_Export"]
+EXPORT = ('MC_Export == /\\ (st = "ops" => PrintT(ToJson(OpsRecord(C.n))))')
 
 
 def theorem(tier, rng, seed):
@@ -110,9 +109,13 @@ def bind_state(chk, S, tab, hist=None):
     for rec in tab["ops"]:
         op = rec["op"]
         name = op_name(op)
-        det = dict(S.describe(), observable=name)
+        det = dict(S.describe(), observable=name, op=op)
         before = sp.clone()
-        out = make_observable(op).apply(S.model, sp)
+        try:
+            out = make_observable(op).apply(S.model, sp)
+        except Exception as ex:                  # the library raised on a documented input
+            chk.violation(key0 + ":raised:" + op["k"], dict(det, raised=repr(ex)))
+            continue
         chk.evaluations += 1
         if not same_tensor(before, sp):
             chk.violation(key0 + ":sample-tensor-modified:" + op["k"], dict(det, before=before.tolist(), after=sp.tolist()))
@@ -128,14 +131,14 @@ def bind_state(chk, S, tab, hist=None):
             chk.evaluations += 1
             got = out[k].item()
             want, tol, _ = exp[k]
+            if hist is not None and abs(want) > 1e-6:
+                hist.add((S.kind, op["k"]))
             if not (abs(mpmath.mpf(got) - want) <= tol):
                 chk.violation("%s:%s:local-value" % (key0, op["k"]),
                               dict(det, basis_state=lattice.rows(n)[k], got=got, expected=mpmath.nstr(want, 17),
                                    tolerance=mpmath.nstr(tol, 3)))
                 bad = True
                 break
-            if hist is not None and abs(want) > 1e-6:
-                hist.add((S.kind, op["k"]))
         # weighted mean over the exact distribution vs tr(rho_hat O)
         chk.evaluations += 1
         mean = float((prob * out).sum().item())
@@ -202,10 +205,14 @@ def record_queries(chk, S, tab, rng, nbatch):
             if op["k"] == "ZZ" and op["c"] > 1 and b > 0:
                 continue
             before = samples.clone()
-            with obs_lib.Queries(S.model) as q:
-                out = make_observable(op).apply(S.model, samples)
-            chk.traces += 1
             det = dict(S.describe(), observable=op_name(op), batch=ks)
+            try:
+                with obs_lib.Queries(S.model) as q:
+                    out = make_observable(op).apply(S.model, samples)
+            except Exception as ex:
+                chk.violation("queries:%s:raised:%s" % (S.kind, op["k"]), dict(det, raised=repr(ex)))
+                continue
+            chk.traces += 1
             if not same_tensor(before, samples):
                 chk.violation("queries:%s:sample-tensor-modified:%s" % (S.kind, op["k"]), det)
                 samples = before.clone()
@@ -311,12 +318,12 @@ def run(tier, seed):
         chk.violation("spec:" + str(res.violation), dict(tlc=res.raw[-4000:]))
         return chk.finish()
     tabs = {e["n"]: e for e in res.exports if "ops" in e}
-    frec = [e for e in res.exports if "faults" in e]
-    if sorted(tabs) != ([1, 2, 3] if quick else [1, 2, 3, 4, 5]) or len(frec) != 1:
+    frec = {e["fault"]: e["exposed"] for e in res.exports if "fault" in e}
+    if sorted(tabs) != ([1, 2, 3] if quick else [1, 2, 3, 4, 5]) or set(frec) != set(FAULTS) | {"code", "per-minus"}:
         raise common.MachineryError("operator tables / fault record not exported")
     for v in FAULTS:
-        chk.control(frec[0]["faults"].get(v, 0) > 0, "seeded fault '%s' in the model of the code satisfied Unbiased" % v)
-    chk.extra["seeded_faults_exposed_at"] = frec[0]["faults"]
+        chk.control(frec[v] > 0, "seeded fault '%s' in the model of the code satisfied Unbiased" % v)
+    chk.extra["seeded_faults_exposed_at"] = frec
 
     pure, purif = obs_lib.lattice_exports(chk, rng, 24 if quick else 260, 14 if quick else 150,
                                           3 if quick else 5, seed)
@@ -339,14 +346,17 @@ def run(tier, seed):
     chk.extra["states_bound"] = len(states) - skipped
     chk.extra["unrepresentable"] = skipped
     chk.extra["nonzero_local_values_seen"] = sorted("%s/%s" % x for x in hist)
-    for need in [("complex", "X"), ("complex", "Y"), ("density", "X"), ("density", "Y"), ("positive", "X"),
-                 ("positive", "Z"), ("density", "ZZ")]:
-        if need not in hist:
-            raise common.MachineryError("no non-zero local value seen for %s/%s (vacuous binding)" % need)
+    if not chk.violations:               # anti-vacuity of a held verdict (comparisons stop at the first mismatch)
+        for need in [("complex", "X"), ("complex", "Y"), ("density", "X"), ("density", "Y"), ("positive", "X"),
+                     ("positive", "Z"), ("density", "ZZ")]:
+            if need not in hist:
+                raise common.MachineryError("no non-zero local value seen for %s/%s (vacuous binding)" % need)
     # code -> spec
     usable = [S for S in states if S.representable()]
     for S in (usable if not quick else usable[::2]):
         record_queries(chk, S, tabs[S.n], rng, 2 if quick else 4)
+    if chk.violations:           # the negative controls presuppose an implementation that conforms
+        return chk.finish()
     controls(chk, tier, seed, usable, tabs, rng)
     chk.assumptions += [
         "X, Y are the Pauli matrices in the (|0>,|1>) order; Z-type observables use the library's documented spin "
@@ -359,3 +369,33 @@ def run(tier, seed):
         "threshold), 1e-7 relative to sqrt(rho_ii rho_jj) where a purification factor cancels exactly",
         "batches are 2-D (rows = samples); float64 on CPU"]
     return chk.finish()
+
+
+def replay(path):
+    """./check C08 --replay <file>: rebuild the recorded state from its lattice point, apply the recorded
+    observable to the full basis and compare with the recorded exact expectation."""
+    import json
+    with open(path) as fh:
+        blob = json.load(fh)
+    d = blob["detail"]
+    if "point" not in d or "op" not in d:
+        print("C08 replay: %s is not a recorded library call; run ./check C08" % blob["key"])
+        return 2
+    st = {"positive": lattice.positive_state, "complex": lattice.complex_state,
+          "density": lattice.density_state}[d["state"]](d["point"])
+    sp = lattice.space(d["point"]["nv"])
+    before = sp.clone()
+    out = make_observable(d["op"], absolute=bool(d.get("absolute"))).apply(st, sp)
+    print("observable %s on %s state, full basis -> %s" % (d["observable"], d["state"], out.tolist()))
+    if not same_tensor(before, sp):
+        print("VIOLATION property=C08 replay=%s\n  the sample tensor was modified: %s" % (path, sp.tolist()))
+        return 1
+    if "basis_state" in d and "expected" in d:
+        k = obs_lib.index_of(d["basis_state"])
+        got, want, tol = out[k].item(), mpmath.mpf(d["expected"]), mpmath.mpf(d.get("tolerance", "1e-9"))
+        print("basis state %s: got %r, exact %s" % (d["basis_state"], got, d["expected"]))
+        if not abs(mpmath.mpf(got) - want) <= tol + mpmath.mpf(10) ** -15 * abs(want):
+            print("VIOLATION property=C08 replay=%s" % path)
+            return 1
+    print("C08 replay: agrees with the recorded expectation")
+    return 0
